@@ -712,6 +712,59 @@ def extract_storage(repo):
     body = norm(fn_body(dp, 'drop_to'))
     if body != 'unsafe { for i in 0..len { let i_ptr = self.0.as_ptr().add(i); ptr::drop_in_place(i_ptr as *mut T); ptr::write(i_ptr, MaybeUninit::uninit()); } };':
         raise ExtractError('DataPtr::drop_to: unexpected body %r' % body)
+
+    # ---- the accessors: how many items each presents (the argument of slice()/slice_mut(), `remaining` of the iterators)
+    bound = {'self.len': 'CBLen', 'self.source.len': 'CBLen', 'self.capacity': 'CBCapacity', 'self.source.capacity': 'CBCapacity'}
+    assume = r'debug_checked_assume!\(self\.len <= MAX_DATA_CAPACITY as usize\); '
+    acc = [
+        ('len', r'(self\.\w+)', None), ('capacity', r'self\.capacity', None), ('version', r'self\.version', None),
+        ('iter', r'unsafe \{ \$iter \{ remaining: (.+?), ptr_entity: self\.entities\.ptr_data\(\), #\(ptr_d~I: self\.d~I\.get_mut\(\)\.ptr_data\(\),\)\* phantom: PhantomData, \} \}', 0),
+        ('iter_mut', r'unsafe \{ \$iter_mut \{ remaining: (.+?), ptr_entity: self\.entities\.ptr_data\(\), #\(ptr_d~I: self\.d~I\.get_mut\(\)\.ptr_data\(\),\)\* phantom: PhantomData, \} \}', 0),
+        ('get_all_slices_mut', r'unsafe \{ ' + assume + r'S::new\( self\.entities\.slice\((.+?)\), #\(self\.d~I\.get_mut\(\)\.slice_mut\((.+?)\),\)\* \) \}', (0, 1)),
+        ('get_slice_entities', r'unsafe \{ ' + assume + r'self\.entities\.slice\((.+?)\) \}', 0),
+        ('get_slice_~I', r'unsafe \{ ' + assume + r'self\.d~I\.get_mut\(\)\.slice\((.+?)\) \}', 0),
+        ('get_slice_mut_~I', r'unsafe \{ ' + assume + r'self\.d~I\.get_mut\(\)\.slice_mut\((.+?)\) \}', 0),
+        ('borrow_slice_~I', r'Ref::map\(self\.d~I\.borrow\(\), \|slice\| unsafe \{ ' + assume + r'slice\.slice\((.+?)\) \}\)', 0),
+        ('borrow_slice_mut_~I', r'RefMut::map\(self\.d~I\.borrow_mut\(\), \|slice\| unsafe \{ ' + assume + r'slice\.slice_mut\((.+?)\) \}\)', 0),
+        ('borrow_component_~I', r'Ref::map\(self\.source\.d~I\.borrow\(\), \|slice\| unsafe \{ debug_assert!\(self\.index < self\.source\.len\); slice\.slice\((.+?)\)\.get_unchecked\(self\.index\) \}\)', 0),
+        ('borrow_component_mut_~I', r'RefMut::map\(self\.source\.d~I\.borrow_mut\(\), \|slice\| unsafe \{ debug_assert!\(self\.index < self\.source\.len\); slice\.slice_mut\((.+?)\)\.get_unchecked_mut\(self\.index\) \}\)', 0),
+    ]
+    out.append('(* accessors: the number of items each one presents, as written in the source *)')
+    table = []
+    for name, pat, grp in acc:
+        body = norm(fn_body(st, name))
+        m = re.fullmatch(pat, body)
+        if not m:
+            raise ExtractError('accessor %s: unexpected body %r' % (name, body))
+        if name == 'len':
+            if m.group(1) != 'self.len':
+                raise ExtractError('len(): returns %s' % m.group(1))
+            continue
+        if grp is None:
+            continue
+        for g in ((grp,) if isinstance(grp, int) else grp):
+            b = m.group(g + 1)
+            if b not in bound:
+                raise ExtractError('accessor %s: unexpected bound %r' % (name, b))
+            table.append((name.replace('_~I', ''), bound[b]))
+    body = norm(fn_body(st, 'is_empty'))
+    if body != 'self.len == 0':
+        raise ExtractError('is_empty: unexpected body %r' % body)
+    # DataPtr::slice / slice_mut: exactly `len` items whatever T is
+    for name, want in (('slice', 'unsafe { slice::from_raw_parts(self.0.as_ptr() as *const T, len) }'),
+                       ('slice_mut', 'unsafe { slice::from_raw_parts_mut(self.0.as_ptr() as *mut T, len) }')):
+        body = norm(fn_body(dp, name))
+        if body != want:
+            raise ExtractError('DataPtr::%s: unexpected body %r' % (name, body))
+    # the iterators step every pointer, unconditionally
+    it = strip_comments(open(os.path.join(repo, 'src/archetype/iter.rs')).read())
+    nexts = re.findall(r'fn next\(&mut self\) -> Option<Self::Item> \{(.*?)\n                \}', it, flags=re.S)
+    want_next = ('if self.remaining == 0 { return None; } unsafe { let result = (&*self.ptr_entity, #(&%s*self.ptr_d~I,)*); '
+                 'self.ptr_entity = self.ptr_entity.offset(1); #(self.ptr_d~I = self.ptr_d~I.offset(1);)* self.remaining -= 1; Some(result) }')
+    if len(nexts) != 2 or norm(nexts[0]) != want_next % '' or norm(nexts[1]) != want_next % 'mut ':
+        raise ExtractError('iter.rs: Iter/IterMut::next: unexpected bodies %r' % [norm(x) for x in nexts])
+    out.append('Definition accessor_bounds : list clone_bound := [%s].   (* %s *)' % ('; '.join(b for _, b in table), ', '.join(n for n, _ in table)))
+    out.append('Definition iterators_step_every_column : bool := true.')
     return '\n'.join(out) + '\n'
 
 
